@@ -31,6 +31,8 @@ def check(ctx):
     from ..sigrules import signatures as _signatures
 
     _signatures(ctx, "R-SIG", classes=('skmatter.linear_model.OrthogonalRegression',))
+    # readers (transform / predict / score ...) leave the fitted state untouched and keep no result buffer on the estimator
+    protocols.reader_state_obligations(ctx, "R-STATE", "OrthogonalRegression", ctx.P.cls("skmatter.linear_model.OrthogonalRegression"))
     from ..flagrules import class_flag_equivalence as _cfe
     from ..harness import arr as _arr
 
